@@ -120,6 +120,7 @@ const (
 	LexerStrLit                    //
 	LexerStrEscaped                //
 	LexerUnquote                   //
+	LexerSignedDot                 // after "-." in a sign context: -.5 or the operator and a dot?
 	LexerBacktickString            //
 	LexerFreshAssignOrColon
 	LexerFirstFwdSlash // could be start of // comment or /*
@@ -665,6 +666,12 @@ top:
 		//vv("in LexerBuiltinOperator, first='%s', atom='%s', lexer.prevrune='%c'", first, atom, lexer.prevrune)
 		// are we a negative number -1 or -.1 rather than  ->, --, -= operator?
 		if lexer.prevrune == '-' && canStartSignedNumberAfter(lexer.preBuiltinRune) {
+			if r == '.' {
+				// -.5 is a number (FloatRegex), -.x is the operator and
+				// a dot-symbol: the next rune decides.
+				lexer.state = LexerSignedDot
+				return nil
+			}
 			if FloatRegex.MatchString(atom) || DecimalRegex.MatchString(atom) {
 				//Q("'%s' is the beginning of a negative number", atom)
 				_, err := lexer.buffer.WriteString(atom)
@@ -692,6 +699,25 @@ top:
 		//Q("1 rune atom in builtin op '%s', first='%s'", atom, first)
 		lexer.AppendToken(lexer.Token(TokenSymbol, first))
 		goto top // still have to parse r in normal
+
+	case LexerSignedDot:
+		lexer.state = LexerNormal
+		if r >= '0' && r <= '9' {
+			// a signed fraction: the sign and the point start the atom
+			if _, err := lexer.buffer.WriteString("-."); err != nil {
+				return err
+			}
+			goto top
+		}
+		// not a number after all: the operator, then the point that was
+		// held back, then r. Both runes are in the look-back ring already;
+		// step back over them so that lexing them again leaves it as it is.
+		lexer.AppendToken(lexer.Token(TokenSymbol, "-"))
+		lexer.priori = (lexer.priori + 2*len(lexer.priorRune) - 2) % len(lexer.priorRune)
+		if err := lexer.LexNextRune('.'); err != nil {
+			return err
+		}
+		return lexer.LexNextRune(r)
 
 	case LexerNormal:
 		switch r {
@@ -928,7 +954,7 @@ func (lex *Lexer) flushAtEnd() (flushed bool, err error) {
 		if lex.buffer.Len() == 0 {
 			return false, nil
 		}
-	case LexerBuiltinOperator, LexerFreshAssignOrColon, LexerFirstFwdSlash, LexerCommentLine:
+	case LexerBuiltinOperator, LexerFreshAssignOrColon, LexerFirstFwdSlash, LexerSignedDot, LexerCommentLine:
 	default:
 		// inside a string, backtick string or block comment:
 		// nothing to terminate.
